@@ -31,7 +31,7 @@ func (c04) ID() string { return "C04" }
 func (c04) Plan(tier string) fw.Plan {
 	p := fw.Plan{
 		Batches: 16, Cases: 12000, TimeoutSec: 900, Level: "exploration",
-		Rule: "values in the stated domain (int64 ints, finite floats biased to integral values, ±0, the 1e-6/1e21 formatting cut-offs and 17-digit mantissas; valid-UTF-8 strings and keys with control characters, U+2028/9, BMP-high and astral runes; CIDs; bytes incl. empty; near-reserved shapes such as {\"/\": non-string}, {\"/\": {\"bytes\": non-string}}, two-entry maps with a \"/\" key) built in several insertion orders (all permutations for ≤4 keys in the permutation cases) through basicnode programs and the harness-owned node implementation. Monitors: (1) encodings identical across orders/implementations; (2) an independent reader (encoding/json token stream + DAG-JSON rules) must read the output as the bytewise key-sorted value with identical kinds and see object keys in strictly increasing bytewise order; (3) dagjson.Decode of the output reads out as the same; (4) failed decodes interleaved before decodes must not influence them. Non-trivial: value has a multi-key map, a float, a link or bytes; distinct by canonical hash.",
+		Rule:        "values in the stated domain (int64 ints, finite floats biased to integral values, ±0, the 1e-6/1e21 formatting cut-offs and 17-digit mantissas; valid-UTF-8 strings and keys with control characters, U+2028/9, BMP-high and astral runes; CIDs; bytes incl. empty; near-reserved shapes such as {\"/\": non-string}, {\"/\": {\"bytes\": non-string}}, two-entry maps with a \"/\" key) built in several insertion orders (all permutations for ≤4 keys in the permutation cases) through basicnode programs and the harness-owned node implementation. Monitors: (1) encodings identical across orders/implementations; (2) an independent reader (encoding/json token stream + DAG-JSON rules) must read the output as the bytewise key-sorted value with identical kinds and see object keys in strictly increasing bytewise order; (3) dagjson.Decode of the output reads out as the same; (4) failed decodes interleaved before decodes must not influence them. Non-trivial: value has a multi-key map, a float, a link or bytes; distinct by canonical hash.",
 		Assumptions: []string{"encoding/json is trusted as tokenizer of the output", "go-cid is trusted for the CID string form"},
 		MinEvents:   []string{"encodes", "decodes", "ref_reads", "permutation_cases", "near_reserved_cases", "failed_decodes_interleaved", "floats_checked"},
 	}
